@@ -136,8 +136,19 @@ fn written_case(t: &Target, l: &mut Local) {
     l.evals += 1;
     l.states += 1;
     l.sample(|| t.short());
-    if !t.broken().is_empty() {
-        l.hit("unrepresentable target (C16's domain)");
+    let broken = t.broken();
+    if !broken.is_empty() {
+        // "any word-aligned payload, any legal padding, count 0..=31": a configuration outside that is not a raw
+        // packet at all, and the unknown-packet builder must not write one (oversize is C16's known finding)
+        if broken.iter().all(|b| b.rule != "total-size-at-most-65536-words") {
+            let mut accepted = None;
+            let r = guard::catch(|| t.with_writer(&mut |w| accepted = Some(w.size())));
+            if let (Ok(()), Some(Ok(n))) = (r, accepted) {
+                l.violation(format!("unrepresentable-raw-packet-accepted:{}:{}", broken[0].rule, t.builder()), || t.short(), || format!("calculate_size() = Ok({}), violated: {:?}", n, broken.iter().map(|b| b.rule).collect::<Vec<_>>()));
+                return;
+            }
+        }
+        l.hit("unrepresentable target refused");
         return;
     }
     let mut bytes: Option<Vec<u8>> = None;
@@ -294,6 +305,15 @@ pub fn c19(ctx: &mut Ctx) {
             // builder queried after every call
             written_case(&Target::Pkt(get(idx), Variant { probe: true, ..Variant::RESET }), l);
         });
+    }
+    // the unknown-packet builder on both sides of its rules: padding 0..=255 x count {0,30,31,32,33,255} x payload
+    // lengths 0..=9 x 3 type numbers
+    for sp in super::rules::rule_spaces(ctx.tier) {
+        if sp.name != "rules-unknown" {
+            continue;
+        }
+        let get = &sp.get;
+        ctx.run_space(&format!("written:{}", sp.name), sp.len, |idx, l| written_case(&Target::Pkt(get(idx), Variant::PLAIN), l));
     }
     // embedded in compounds at every position
     let menu: Vec<Member> = vec![
